@@ -87,9 +87,12 @@ func (o *OracleC02) OnOut(n *Node, st *Step, out *Out) {
 			} else if cs.onlyEarlyInvalid() {
 				class = "cert_counts_unverified_early_commit_at_primary_or_antimev"
 			}
-			s.Violate("C02", class, fmt.Sprintf("%s accepted block %s at height %d view %d holding %d valid current-view commits (M=%d), %d invalid taken in before the header was known, %d invalid taken in later, %d of other views",
-				n, out.Hash, out.Hdr.Idx, n.d.ViewNumber, cs.Valid, cs.M, cs.InvalidEarly, cs.InvalidLate, cs.OtherView), n.id)
-			return
+			// (a hit of the known finding D1 does not end the run: the tip, proposal and
+			// transaction rules below, and the rest of the run, are still judged)
+			if !s.ViolateKnown("C02", class, fmt.Sprintf("%s accepted block %s at height %d view %d holding %d valid current-view commits (M=%d), %d invalid taken in before the header was known, %d invalid taken in later, %d of other views",
+				n, out.Hash, out.Hdr.Idx, n.d.ViewNumber, cs.Valid, cs.M, cs.InvalidEarly, cs.InvalidLate, cs.OtherView), n.id) {
+				return
+			}
 		}
 		if out.Hdr.Idx != n.initTip+1 || out.Hdr.Prev != n.initTipHash {
 			s.Violate("C02", "block_does_not_extend_tip", fmt.Sprintf("%s accepted block idx=%d prev=%s but the ledger tip reported at initialisation was %d %s",
